@@ -7,7 +7,7 @@ git merge --no-edit "$b" >/tmp/merge.log 2>&1; tail -3 /tmp/merge.log
 python3 - <<'PY'
 import json
 ours = json.load(open('/tmp/kf_ours.json')); theirs = json.load(open('/tmp/kf_theirs.json'))
-ids = {f['id'] for f in ours['findings']}
+ids = {f['id'] for f in ours['findings']} | set(ours.get('retired_ids', []))
 for f in theirs.get('findings', []):
     if f['id'] not in ids:
         ours['findings'].append(f); ids.add(f['id'])
